@@ -118,10 +118,12 @@ Variable s : stream.
 (* PEP 3333: CONTENT_TYPE is a native string holding latin-1; all that is needed
    here is that it can be encoded (no lone surrogate) *)
 Hypothesis ctype_scalar : Forall scalar ctype.
-(* the read loops terminate (proved separately: C12_read_terminates) *)
-Hypothesis read_terminates : read_parts cfg fr s <> ROutOfFuel.
-(* what the streaming parser reports alternates and has non-negative offsets *)
-Hypothesis markup_wf : forall B parts, read_parts cfg fr s = RDone parts -> markup_ok (markup_chunks B parts).
+(* CONTENT_LENGTH parses as an int (absent and empty count as -1) *)
+Hypothesis cl_int : content_length fr <> None.
+(* the read loops terminate (proved separately: C12_terminates) *)
+Hypothesis read_terminates : forall cl, read_parts cfg cl (fr_te fr) s <> ROutOfFuel.
+(* what the streaming parser reports alternates and has non-negative offsets (proved separately) *)
+Hypothesis markup_wf : forall B parts, markup_ok (markup_chunks B parts).
 
 Lemma bgroup_rest_sub r g : bgroup_rest r = Some g -> Forall scalar r -> Forall scalar g.
 Proof.
@@ -174,10 +176,12 @@ Proof.
   - rewrite (utf8_encode_some b (boundary_match_scalar b Eb)).
     destruct (contains_char N.eqb CR (utf8_enc_str b)).
     + intros [= <-]. apply raise_no_fault.
-    + destruct (read_parts cfg fr s) eqn:Er; try (intros [= <-]; apply raise_no_fault).
-      now elim read_terminates.
-  - destruct (read_parts cfg fr s) eqn:Er; try (intros [= <-]; apply raise_no_fault).
-    now elim read_terminates.
+    + destruct (content_length fr) as [cl|]; [|now elim cl_int].
+      destruct (read_parts cfg cl (fr_te fr) s) eqn:Er; try (intros [= <-]; apply raise_no_fault).
+      now elim (read_terminates cl).
+  - destruct (content_length fr) as [cl|]; [|now elim cl_int].
+    destruct (read_parts cfg cl (fr_te fr) s) eqn:Er; try (intros [= <-]; apply raise_no_fault).
+    now elim (read_terminates cl).
 Qed.
 
 Lemma body_stage_markup body m :
@@ -187,15 +191,18 @@ Proof.
   destruct (boundary_match ctype) as [b|] eqn:Eb.
   - destruct (utf8_encode b) as [B|]; [|discriminate].
     destruct (contains_char N.eqb CR B); [discriminate|].
-    destruct (read_parts cfg fr s) eqn:Er; try discriminate.
-    intros [= _ <-]. now apply markup_wf.
-  - destruct (read_parts cfg fr s); discriminate.
+    destruct (content_length fr) as [cl|]; [|discriminate].
+    destruct (read_parts cfg cl (fr_te fr) s) eqn:Er; try discriminate.
+    intros [= _ <-]. apply markup_wf.
+  - destruct (content_length fr) as [cl|]; [|discriminate].
+    destruct (read_parts cfg cl (fr_te fr) s); discriminate.
 Qed.
 
 Lemma get_body_string_no_fault o : get_body_string cfg ctype fr s = inr o -> no_fault o.
 Proof.
   unfold get_body_string. destruct (body_stage cfg ctype fr s) as [[body m]|o'] eqn:E.
-  - destruct (Z.of_nat (c_memfile cfg) <? fr_cl fr); [intros [= <-]; apply raise_no_fault|].
+  - destruct (content_length fr) as [cl|]; [|now elim cl_int].
+    destruct (Z.of_nat (c_memfile cfg) <? cl); [intros [= <-]; apply raise_no_fault|].
     destruct (Z.of_nat (c_memfile cfg) <? _); [intros [= <-]; apply raise_no_fault | discriminate].
   - intros [= <-]. now apply (body_stage_no_fault o').
 Qed.
